@@ -1740,7 +1740,7 @@ def stream_histories(ctx):
     rng = rng_for(ctx.seed, 'c08-histories')
     N = budget(ctx.tier, 70, 500)
     if ctx.drift:
-        N = max(N, 200)
+        N = max(N, 110)
     READS = ['tensors', 'neg', 'eq', 'str', 'cast', 'io', 'projected', 'qubit', 'iter']
     NBT_READS = ['tensors', 'neg', 'eq', 'cast', 'io', 'str']
     MODS = ['add_s', 'sub_s', 'iadd_s', 'isub_s', 'set_const', 'edit_hc', 'edit_hr1', 'edit_hr2', 'imul', 'idiv',
